@@ -50,8 +50,29 @@ def type_infer(t, *, forbid_internal=True):
         num_internal += 1
         return T
 
+    def occurs(T1, T):
+        """Whether the class of temporary type variable T1 occurs in T, looking
+        through the temporary type variables that are already assigned."""
+        if is_internal_type(T):
+            rep = uf[int(T.name[2:])]
+            if rep == T1:
+                return True
+            elif rep == T:
+                return False
+            else:
+                return occurs(T1, rep)
+        elif T.is_tconst():
+            return any(occurs(T1, arg) for arg in T.args)
+        else:
+            return False
+
     def union(T1, T2):
         """Join temporary type variable T1 with T2."""
+        # The reach sets below are not kept transitively closed, so check for
+        # cycles on the current assignment directly.
+        if not is_internal_type(T2) and occurs(T1, T2):
+            raise TypeInferenceException("Infinite loop")
+
         # Compute the set of temporary type variables reachable from T2.
         if is_internal_type(T2):
             new_reach = reach[int(T2.name[2:])]
